@@ -647,11 +647,11 @@ def _st(t, d) -> str:
             else:
                 terms.append(f"{c}·{ms}")
         return "(" + " + ".join(terms) + ")"
-    if k == "p":
+    if k == "p" and len(t) == 2 and isinstance(t[1], str):
         return t[1]
-    if k == "g":
+    if k == "g" and len(t) == 2 and isinstance(t[1], str):
         return t[1].replace("jax.numpy.", "jnp.").replace("jax.random.", "jr.")
-    if k == "k":
+    if k == "k" and len(t) == 2:
         if isinstance(t[1], tuple) and t[1] and t[1][0] == "frac":
             return t[1][1]
         return repr(t[1]) if not isinstance(t[1], str) else t[1]
